@@ -17,7 +17,8 @@ DRIVERS = ["driver"]
 RULE = ("(a) direct V3CoreLib.update_fee on random (previous close | nan, close, range, own/pool liquidity, volumes, decimals, fee tier, tick dtype "
         "python-int/int64/float64) with a boundary stream (close or previous close exactly on a bound, one tick inside, jump across the whole range "
         "both ways, stationary inside/outside, zero liquidity, zero pool); (b) real Actuator.run with a scripted strategy that adds / removes / "
-        "collects / swaps in initialize, before_bar, on_bar and after_bar of random bars, every set_market_status and update() observed. "
+        "collects / swaps in initialize, before_bar, on_bar and after_bar of random bars, every set_market_status and update() observed; in "
+        "half of the runs the broker carries a second, never-written market registered before or after the one under test. "
         "Buckets = (stream, path class, model branch tag, outcome, dtype | phase pattern of the bar).")
 TRUSTED = ["arithmetic theorems are for the exact rational semantics; the driver reproduces the 35-digit Decimal results bit-exactly and the oracle "
            "allows 1e-30 relative (five roundings of 5e-35)",
@@ -147,7 +148,8 @@ def run_direct_case(ctx, pool, c, reqs):
     row = U.row_json(st)
     err = None
     try:
-        V3CoreLib.update_fee(cast_tick(c["prev"], c["dtype"]), pool, key, pos, st)
+        with U.guard("update_fee"):
+            V3CoreLib.update_fee(cast_tick(c["prev"], c["dtype"]), pool, key, pos, st)
     except Exception as e:  # noqa: BLE001
         err = type(e).__name__
     after = U.pos_json(key, pos)
@@ -254,7 +256,10 @@ def gen_run(rng, pool):
             if rng.random() < pr:
                 plan[ph].setdefault(k, []).extend(op() for _ in range(rng.randint(1, 2)))
     dtype = "float64" if rng.random() < 0.7 else "int64"
-    return dict(ticks=ticks, in0=in0, in1=in1, liqs=liqs, plan=plan, dtype=dtype)
+    # a second market on the same broker that the script never writes to, registered before or after the Uniswap market under test:
+    # the per-bar refresh after on_bar must reach every market with a pending write, whatever the other markets did
+    probe = rng.choice((None, None, "before", "before", "after"))
+    return dict(ticks=ticks, in0=in0, in1=in1, liqs=liqs, plan=plan, dtype=dtype, probe=probe)
 
 
 def do_op(market, op, log):
@@ -310,7 +315,15 @@ def exec_run(pool, case, extra=None):
     act = Actuator()
     act.strategy = Script()
     market = UniLpMarket(mk, pool)
+    probe = case.get("probe")
+    if probe:
+        other = UniLpMarket(MarketInfo("probe"), pool)
+        other.data = U.mk_data(pool, case["ticks"], case["in0"], case["in1"], case["liqs"], case["dtype"])
+    if probe == "before":
+        act.broker.add_market(other)
     act.broker.add_market(market)
+    if probe == "after":
+        act.broker.add_market(other)
     act.broker.set_balance(pool.base_token, Decimal(100))
     act.broker.set_balance(pool.quote_token, Decimal(200000))
     market.data = U.mk_data(pool, case["ticks"], case["in0"], case["in1"], case["liqs"], case["dtype"])
@@ -337,7 +350,7 @@ def exec_run(pool, case, extra=None):
     market.update, market.set_market_status = upd, setst
     run_err = None
     try:
-        with U.quiet():
+        with U.quiet(), U.guard("Actuator.run"):
             act.run(print_result=False)
     except Exception as e:  # noqa: BLE001
         run_err = type(e).__name__
@@ -401,7 +414,7 @@ def run_runs(ctx: Ctx):
             recs, run_err, oplog = exec_run(pool, case)
             for o in oplog:
                 ctx.count(f"op_{o[0]}_{o[1]}")
-            check_run(ctx, pool, case, recs, run_err, rep, reqs, case["dtype"])
+            check_run(ctx, pool, case, recs, run_err, rep, reqs, case["dtype"] + (":probe-" + case["probe"] if case.get("probe") else ""))
             ctx.impl_traces += 1
             # paired run: the same script plus unrelated same-bar operations; fees may differ only through the share's denominator
             if i % 3 == 0 and run_err is None:
@@ -459,9 +472,12 @@ def run(ctx: Ctx):
     U.cap_violations(ctx)
     run_direct(ctx)
     run_runs(ctx)
+    U.report_process_state(ctx)
 
 
 def replay(ctx: Ctx, case) -> bool:
+    if isinstance(case, dict) and case.get("kind") == "process-state":
+        return U.replay_process_state(case)
     TokenInfo, Broker, MarketInfo, UniLpMarket, UniV3Pool, UniswapMarketStatus = U.imports()
     pj = case["pool"]
     t0, t1 = TokenInfo(pj["tok0"], pj["d0"]), TokenInfo(pj["tok1"], pj["d1"])
